@@ -86,6 +86,19 @@ Theorem C16_cap_is_restriction_run : forall fa c thr g z, (0 < r_cap c)%Z -> (z 
 Proof. exact run_cap_is_restriction_graph. Qed.
 Print Assumptions C16_cap_is_restriction_run.
 
+Theorem C16_cap_is_restriction_shapes : forall fa c thr g z, (0 < r_cap c)%Z -> (z <= 0)%Z ->
+  NoDup g -> ids_faithful g -> tau_ok (r_tau c) g ->
+  run_shapes fa c thr g =
+  run_shapes2 fa (with_cap c z) thr (restrict_typing (r_tau c) (r_targets c) (Z.to_nat (r_cap c)) g) g.
+Proof. exact run_shapes_cap_is_restriction. Qed.
+Print Assumptions C16_cap_is_restriction_shapes.
+
+(** [ids_faithful] is no restriction on real input: it follows from "blank-node
+    strings start with _: and IRI strings do not" *)
+Theorem C16_ids_faithful_of_marked : forall g, (forall n, node_in g n -> bnode_marked n) -> ids_faithful g.
+Proof. exact marked_ids_faithful. Qed.
+Print Assumptions C16_ids_faithful_of_marked.
+
 (** ** (cap3) a cap not smaller than every class changes nothing (duplicates allowed) *)
 Theorem C16_cap_large_id : forall tau m k g z, (0 < k)%Z -> (z <= 0)%Z -> tau_ok tau g ->
   (forall c, List.length (class_subjects tau (scope_of m) g c) <= Z.to_nat k) ->
@@ -176,6 +189,13 @@ Example C16_ns_example :
   child_of_ns [Str "http://ex.org/a/"] (Str "http://ex.org/p") = false /\
   child_of_ns [Str "http://ex.org/"] (Str "http://ex.org/a#p") = false.
 Proof. vm_compute. repeat split; reflexivity. Qed.
+
+(** a listed "namespace" without a trailing separator is compared as a plain
+    string prefix (code and Spec agree; recorded so that nobody reads more into "namespace") *)
+Example C16_ns_unterminated :
+  child_of_ns [Str "http://ex.org/a"] (Str "http://ex.org/ab") = true /\
+  child_of_ns [Str "http://ex.org/a"] (Str "http://ex.org/a/b") = false.
+Proof. vm_compute. split; reflexivity. Qed.
 
 (** ** witnesses of the boundaries *)
 
